@@ -5,5 +5,6 @@ CONSTANTS
  CheckMode = "pubshare"
  MCCfgs <- Cfg3v2f
  MaxForge = 1
+ Combine = TRUE
 INVARIANTS I4_HonestNotBlamed
 CHECK_DEADLOCK FALSE
